@@ -68,7 +68,12 @@ impl Event<App> for Ev {
         let acts = rt.app.prog.get(self.0).cloned().unwrap_or_default();
         for a in acts {
             let time = if a.back { now.saturating_sub(a.delay) } else { now + a.delay };
-            let ok = guarded(|| rt.add_event(Ev(a.node), st(time))).is_ok();
+            // forward adds go through add_event_in (relative delay) or add_event (absolute time): same meaning
+            let ok = if !a.back && (a.delay + a.node as u64) % 2 == 0 {
+                guarded(|| rt.add_event_in(Ev(a.node), dur(a.delay))).is_ok()
+            } else {
+                guarded(|| rt.add_event(Ev(a.node), st(time))).is_ok()
+            };
             rt.app.log.push(format!("> a {} {} {}", a.node, time, if ok { "ok" } else { "rej" }));
         }
     }
@@ -193,7 +198,14 @@ pub fn exec(input: &str) -> String {
                 ["add", time, node] => {
                     let (Ok(time), Ok(node)) = (time.parse::<u64>(), node.parse::<usize>()) else { continue };
                     writeln!(out, "{line}").unwrap();
-                    let ok = guarded(|| rt.add_event(Ev(node), st(time))).is_ok();
+                    // external adds not in the past alternate between add_event (absolute) and add_event_in (relative to
+                    // the paused / not yet started runtime's sim_time): same meaning
+                    let now = ns(rt.sim_time()) as u64;
+                    let ok = if time >= now && (time + node as u64) % 2 == 0 {
+                        guarded(|| rt.add_event_in(Ev(node), dur(time - now))).is_ok()
+                    } else {
+                        guarded(|| rt.add_event(Ev(node), st(time))).is_ok()
+                    };
                     writeln!(out, "> a {} {} {}", node, time, if ok { "ok" } else { "rej" }).unwrap();
                 }
                 ["stepn", k] => {
@@ -310,7 +322,10 @@ fn forest(r: &mut Rng, n: u64, t: u64, start: u64, thorough: bool) -> Forest {
 fn limit_expr(r: &mut Rng, depth: u32, total: u64, horizon: u64, start: u64) -> String {
     let leaf = depth == 0 || r.chance(1, 2);
     if leaf {
-        if r.chance(1, 2) {
+        if r.chance(1, 8) {
+            // RuntimeLimit::None as an operand: never fulfilled (neutral for Or, absorbing for And)
+            "none".to_string()
+        } else if r.chance(1, 2) {
             format!("ec:{}", r.below(total + 3))
         } else {
             format!("st:{}", start.saturating_sub(1) + r.below(horizon - start.min(horizon) + 3))
@@ -334,6 +349,14 @@ pub fn gen_for(which: u32, seed: u64, count: usize, thorough: bool) -> String {
         // one session in eight lives around / beyond 2^64 ns (584.5 years) of simulated time: 1 unit = 1 s,
         // buckets of 2.5e6 s, start just below the 64-bit nanosecond boundary (the run crosses it) or beyond it
         let far = r.chance(1, 8);
+        // one session in eight has very coarse buckets (2.5e15 ns = 29 days) and starts months to decades into simulated
+        // time, with nanosecond-scale offsets between events (times beyond 2^53 ns are not exactly representable as f64 seconds)
+        let coarse = !far && r.chance(1, 7);
+        let n = if coarse { n.min(32) } else { n };
+        if coarse {
+            t = 2_500_000_000_000_000;
+            start = *r.pick(&[4u64, 40, 400]) * t + r.below(200);
+        }
         if far {
             t = 2_500_000;
             start = *r.pick(&[7_000u64, 7_300, 7_378, 7_379, 8_000, 20_000, 40_000]) * t + r.below(3);
